@@ -349,6 +349,39 @@ func init() {
 				c.Programs++
 			}
 		}
+		// SEVERAL entries where tests have one: required names that are not declared properties (next to a schema-valued or
+		// boolean additionalProperties, with and without declared members), several undeclared definitions, several
+		// capitalizations — whatever the generator does with each list, it does it in the same order every time
+		for li, sch := range []sgen.M{
+			{"type": "object", "properties": sgen.M{"name": sgen.M{"type": "string"}}, "additionalProperties": sgen.M{"type": "string"}, "required": []any{"name", "region", "owner", "zone", "team"}},
+			{"type": "object", "properties": sgen.M{"name": sgen.M{"type": "string"}}, "additionalProperties": true, "required": []any{"region", "owner", "zone"}},
+			{"type": "object", "properties": sgen.M{"name": sgen.M{"type": "string"}}, "required": []any{"zeta", "alpha", "name", "mid"}},
+			{"type": "object", "additionalProperties": sgen.M{"type": "integer"}, "required": []any{"b", "a", "c"}},
+			{"type": "object", "properties": sgen.M{"o": sgen.M{"type": "object", "properties": sgen.M{"k": sgen.M{"type": "integer"}}, "additionalProperties": sgen.M{"type": "number"}, "required": []any{"k", "x", "y", "z"}}}},
+		} {
+			sch["$id"] = "urn:c12"
+			content := core.MustJSON(sch)
+			for _, extra := range []bool{false, true} {
+				cfg := core.DefaultCfg()
+				cfg.RootType = "Root"
+				cfg.ExtraImports = extra
+				dir := filepath.Join(tmp, fmt.Sprintf("lists%d-%v", li, extra))
+				ref := genSrc(dir, "schema.json", content, cfg, "urn:c12")
+				for rep := 0; rep < 40; rep++ {
+					got := genSrc(filepath.Join(dir, fmt.Sprint(rep)), "schema.json", content, cfg, "urn:c12")
+					c.Eval(fmt.Sprintf("several-entries|%d|%v|%v", li, extra, got == ref))
+					if got != ref {
+						fails++
+						if fails <= 3 {
+							c.Fail("oracle", fmt.Sprintf("a schema with several undeclared required names: repetition %d of the same generation gives other bytes", rep),
+								M{"kind": "relational", "variant": "repeat", "cfg": cfg, "schema": string(content), "reference_output": clip(ref, 1500), "variant_output": clip(got, 1500)}, false)
+						}
+						break
+					}
+				}
+				c.Programs++
+			}
+		}
 		// an extension-less reference with SEVERAL candidate files of different content: the first listed resolve
 		// extension wins, every time (30 generations per order of the extension list)
 		for oi, exts := range [][]string{{".json", ".yaml"}, {".yaml", ".json"}, {".yml", ".json", ".yaml"}} {
